@@ -558,7 +558,15 @@ func runCase(c caseSpec, sent *sentinels) (obs caseObs) {
 		obs.Real = sent.check()
 	}()
 	opts := []risor.Option{risor.WithConcurrency()}
-	if c.WithOS != 0 {
+	if c.WithOS == 9 {
+		// risor's own VirtualOS with nothing mounted and no user configured: whatever it answers must come from this
+		// configuration, never from the real host
+		vout := &memFile{o: oses[1], name: "/vstdout"}
+		opts = append(opts, risor.WithOS(ros.NewVirtualOS(context.Background(), ros.WithHostname("vhost"), ros.WithPid(424242),
+			ros.WithUid(0), ros.WithEnvironment(map[string]string{"VKEY": "vval"}), ros.WithCwd("/vcwd"), ros.WithTmp("/vtmp"),
+			ros.WithUserHomeDir("/vhome"), ros.WithUserCacheDir("/vcache"), ros.WithUserConfigDir("/vconfig"),
+			ros.WithArgs([]string{"varg0"}), ros.WithStdout(vout), ros.WithStderr(vout))))
+	} else if c.WithOS != 0 {
 		opts = append(opts, risor.WithOS(oses[c.WithOS]))
 	}
 	cfg0 := risor.NewConfig(opts...)
@@ -578,6 +586,45 @@ func runCase(c caseSpec, sent *sentinels) (obs caseObs) {
 	code, err := compiler.Compile(ast, cfg.CompilerOpts()...)
 	if err != nil {
 		obs.Err = "compile: " + err.Error()
+		return
+	}
+	if len(c.Steps) == 2 && c.Steps[1].Kind == "apicall" {
+		// the embedding API's own route: risor.Call runs the code and then calls the function, under the same options
+		res, err := risor.Call(mkctx(c.Steps[1].Ctx), code, c.Fn, nil, opts...)
+		if err != nil {
+			obs.Err = "call: " + err.Error()
+			return
+		}
+		obs.Result = inspect(res)
+		return
+	}
+	if len(c.Steps) == 2 && c.Steps[1].Kind == "withvm" {
+		// a VM the host keeps: code evaluated on it through the API (options incl. the OS), then a function called on it
+		machine, err := vm.NewEmpty()
+		if err != nil {
+			obs.Err = "newempty: " + err.Error()
+			return
+		}
+		if _, err := risor.EvalCode(ctx0, code, append(append([]risor.Option{}, opts...), risor.WithVM(machine))...); err != nil {
+			obs.Err = "run: " + err.Error()
+			return
+		}
+		fnObj, err := machine.Get(c.Fn)
+		if err != nil {
+			obs.Err = "get: " + err.Error()
+			return
+		}
+		fn, ok := fnObj.(*object.Function)
+		if !ok {
+			obs.Err = "target is not a function"
+			return
+		}
+		res, err := machine.Call(mkctx(c.Steps[1].Ctx), fn, nil)
+		if err != nil {
+			obs.Err = "call: " + err.Error()
+			return
+		}
+		obs.Result = inspect(res)
 		return
 	}
 	machine := vm.New(code, cfg.VMOpts()...)
